@@ -704,6 +704,22 @@ def translate(text, tok_ids):
     return Translator(text, tok_ids).run()
 
 
+def translate_partial(text, tok_ids):
+    """preamble (enums, entry points, callback tables) and the names of the rule functions only; the rule bodies
+    could not be read.  Enough to build the implementation-side driver, so that the direct oracles can still search
+    for a failing input when the emitted code has left the command language.  `rules_error` says why."""
+    t = Translator(text, tok_ids)
+    t.parse_preamble()
+    try:
+        t.parse_rules()
+        t.rules_error = None
+    except TranslateError as e:
+        t.rules_error = str(e)
+        if not t.rule_ids:
+            raise
+    return t
+
+
 def token_ids_from_generated(text):
     """Token ids when no external table is given: EOF=0, Error=1, others in order of first appearance."""
     ids = {'EOF': 0, 'Error': 1}
